@@ -12,7 +12,11 @@ RULE = ('keys: the 7 fixture keys (fixtures/keys, made by fixtures/gen_keys.sh) 
         '(per component: value length from boundary set {0..20,126..130,254..257} or RSA-like 64..512 bytes, '
         'top bit set/clear, 0-3 leading zero bytes, occasional zero value) and EC scalars on P-256/384/521 '
         '(full, leading zeros, short, 1, n-1, small), each run through all encoders, both decoders and a '
-        'certificate built with OpenSSL; distinct = distinct component-shape strings. '
+        'certificate built with OpenSSL; per key also hand-built legal encodings no encoder at hand writes: EC PKCS#8 whose '
+        'inner ECPrivateKey carries the [0] parameters (with / without public key; same key expected), every pair of '
+        'differing outer / inner curves (no key may come out), ECPrivateKey without parameters, PKCS#8 with the curve only '
+        'inside, RSA PKCS#8 without NULL parameters (executed; judged only "if decoded, the key is the encoded one"); '
+        'distinct = distinct component-shape strings. '
         'PEM: every payload length 0..2000 x 4 flag sets, each decoded as written and under transformed '
         'variants (mixed CRLF, stray CR, whitespace, re-wrapping); banner lengths 0..140 x dashes {0,5,7}; '
         'one malformed object per case (9 defect kinds) and multi-object streams with junk text; '
@@ -33,7 +37,8 @@ DISTINCT = ['rsa_shape', 'ec_shape', 'pem_cfg', 'pem_dec_cfg', 'pem_bad_kind', '
 REQUIRED = ['fixture_keys', 'cmp_lenquery', 'cmp_enc_bytes', 'cmp_skey_rsa', 'cmp_skey_ec', 'cmp_keypem',
             'cmp_pkey_rsa_spki', 'cmp_pkey_rsa_raw', 'cmp_pkey_ec_spki', 'cmp_ec_ossl_decodes_ours',
             'cmp_pem_enc', 'cmp_pem_enc_inplace', 'cmp_pem_dec', 'cmp_pem_banner', 'cmp_pem_bad',
-            'cmp_pem_trunc', 'cmp_pem_notbanner', 'cmp_pem_multi', 'multi_with_bad_object']
+            'cmp_pem_trunc', 'cmp_pem_notbanner', 'cmp_pem_multi', 'multi_with_bad_object',
+            'cmp_skey_ec_pkcs8_inner_params', 'cmp_skey_ec_curve_conflict', 'alt_ec_raw_no_params', 'alt_rsa_pkcs8_no_null']
 
 HERE = os.path.dirname(os.path.dirname(os.path.abspath(__file__)))
 FIX = os.path.join(HERE, 'fixtures', 'keys')
@@ -66,6 +71,8 @@ def coverage_extra(res, tier):
             encoder_bytes_vs_openssl=s.get('cmp_enc_bytes', 0),
             ec_short_scalar_decoded_by_openssl=s.get('cmp_ec_ossl_decodes_ours', 0),
             skey_decoder_rsa=s.get('cmp_skey_rsa', 0), skey_decoder_ec=s.get('cmp_skey_ec', 0),
+            skey_ec_pkcs8_inner_parameters=s.get('cmp_skey_ec_pkcs8_inner_params', 0),
+            skey_ec_curve_conflict=s.get('cmp_skey_ec_curve_conflict', 0),
             key_pem_armour=s.get('cmp_keypem', 0),
             pkey_rsa_spki=s.get('cmp_pkey_rsa_spki', 0), pkey_rsa_raw=s.get('cmp_pkey_rsa_raw', 0),
             pkey_ec_spki=s.get('cmp_pkey_ec_spki', 0),
@@ -73,5 +80,5 @@ def coverage_extra(res, tier):
             pem_decode_roundtrip=s.get('cmp_pem_dec', 0), pem_banner=s.get('cmp_pem_banner', 0),
             pem_malformed=s.get('cmp_pem_bad', 0), pem_truncated=s.get('cmp_pem_trunc', 0),
             pem_not_a_banner=s.get('cmp_pem_notbanner', 0), pem_multi_object=s.get('cmp_pem_multi', 0)),
-        unjudged={k: v for k, v in s.items() if k.startswith('unjudged_') or k == 'cmp_pem_bad_unjudged_verdict'},
+        unjudged={k: v for k, v in s.items() if k.startswith('unjudged_') or k.startswith('alt_') or k == 'cmp_pem_bad_unjudged_verdict'},
         observations={k: sorted(v) for k, v in res.distinct.items() if k.startswith('obs_') or k == 'x509_reject'})
